@@ -58,17 +58,20 @@ PROFILES = {
     # weights / switches per check; see DESIGN.md section 4
     "C08": dict(nreq=(1, 2), mutation=(1, 3), variants=False, reps=2,
                 configs="all", boom=(1, 3), overlap=True, l2=(1, 2),
-                l2_reps=2, nonfinite=(1, 10)),
+                l2_reps=2, nonfinite=(1, 10), generr=True),
     "C09": dict(nreq=(1, 1), mutation=(1, 1), force_mutation=True,
-                variants=False, reps=2, configs="all", boom=(1, 6)),
+                variants=False, reps=2, configs="all", boom=(1, 6),
+                generr=True),
     "C04": dict(nreq=(2, 6), mutation=(1, 3), variants=False, reps=1,
-                configs="one", boom=(0, 1), activities=True, overlap=True),
+                configs="one", boom=(0, 1), activities=True, overlap=True,
+                generr=True),
     "C10": dict(nreq=(1, 2), mutation=(1, 4), variants=True, reps=1,
                 configs="two", boom=(0, 1), nonfinite=(1, 6),
-                corruption=True, shared_errors=True, badenum=True),
+                corruption=True, shared_errors=True, badenum=True,
+                generr=True),
     "C16": dict(nreq=(1, 2), mutation=(1, 3), variants=True, reps=1,
                 configs="all", boom=(1, 8), stacks=True, overlap=True,
-                l2=(1, 2), badenum=True, repeats=True),
+                l2=(1, 2), badenum=True, repeats=True, generr=True),
 }
 
 
@@ -387,6 +390,14 @@ def _finish_request(draws, spec, req, idx, profile, rs, tier):
             cand = [p for p, what in base.positions if what == "field"]
             if cand:
                 req.faults[cand[fs.below(len(cand), "boom_at")]] = kinds[-1]
+        if profile.get("generr") and base.gen_sites and not boom_on and \
+                not req.nonfinite and fs.chance(1, 2, "lazy_list_failure"):
+            site = base.gen_sites[fs.below(len(base.gen_sites), "lazy_at")]
+            # (whatever was placed below that field would be reported from
+            # inside a nulled list: not modelled)
+            req.faults = {p: k for p, k in req.faults.items()
+                          if tuple(p[:len(site)]) != tuple(site)}
+            req.faults[site] = "generr"
         if profile.get("shared_errors") and not boom_on \
                 and not req.nonfinite and fs.chance(1, 8, "shared_error"):
             cand = [p for p, what in base.positions if what == "field"]
@@ -1313,11 +1324,14 @@ def _check_tracer(tracer, exp):
     ex = payload.get("execution") or {}
     entries = ex.get("resolvers", [])
     paths = [tuple(e["path"]) for e in entries]
+    lazy = getattr(exp, "lazy_failed", ())
+    paths = [q for q in paths if not oracles.under_any(q, lazy)]
     want = sorted(exp.resolved, key=repr)
     if sorted(paths, key=repr) != want:
         out.append(Violation(("C16",), "tracer_payload", ("entry-count",),
                              "entries %r, resolved %r" % (paths, want)))
-    elif any(e.get("duration") is None for e in entries):
+    elif any(e.get("duration") is None for e in entries
+             if not oracles.under_any(tuple(e["path"]), lazy)):
         out.append(Violation(("C16",), "tracer_payload", ("null-duration",),
                              "some resolver entry has no duration"))
     return out
